@@ -167,6 +167,10 @@ func ClearingRevision(revision types.FileContractRevision, outputValues []types.
 // and missed proof outputs are the same.
 func ValidateClearingRevision(current, final types.FileContractRevision, finalPayment types.Currency) (types.Currency, error) {
 	switch {
+	case len(current.ValidProofOutputs) != 2:
+		return types.ZeroCurrency, errors.New("current revision must have renter and host outputs")
+	case current.RevisionNumber == types.MaxRevisionNumber:
+		return types.ZeroCurrency, errors.New("contract is locked")
 	case final.Filesize != 0:
 		return types.ZeroCurrency, errors.New("filesize must be 0")
 	case final.FileMerkleRoot != types.Hash256{}:
